@@ -184,6 +184,7 @@ def build(case):
 
 
 def run_impl(case):
+    del tc.ARG_CHANGED[:]
     obs = {"oracle": [], "tags": ["kind:" + case["kind"]]}
     fail = obs["oracle"].append
     kind = case["kind"]
@@ -350,6 +351,9 @@ def run_impl(case):
             fail(f"subregions after {case['fmt']} reload {b} differ from {a}")
         tc.check_subinv(m2, fail, "reloaded mesh")
     obs["nontrivial"] = True
+    for text in tc.ARG_CHANGED:
+        obs["oracle"].append(text)
+    del tc.ARG_CHANGED[:]
     return obs
 
 
